@@ -21,7 +21,9 @@ import (
 	"path/filepath"
 	"sort"
 	"strings"
+	"sync"
 
+	"github.com/go-git/go-billy/v6/memfs"
 	"github.com/go-git/go-billy/v6/osfs"
 	git "github.com/go-git/go-git/v6"
 	"github.com/go-git/go-git/v6/plumbing/format/gitignore"
@@ -298,11 +300,29 @@ type textPattern struct {
 }
 
 // patternLines mirrors gitignore.readIgnoreFile's line filter.
+// gogitSkipsBOM probes the go-git under test once: does its ignore-file reader skip a leading
+// UTF-8 byte order mark? (It did not before the fix of utf8-bom-in-ignore-file.) The harness'
+// explanation of go-git's verdicts has to read the files the way go-git does.
+var gogitSkipsBOM = sync.OnceValue(func() bool {
+	fs := memfs.New()
+	f, err := fs.Create(".gitignore")
+	if err != nil {
+		return false
+	}
+	f.Write([]byte("\xef\xbb\xbfprobe\n"))
+	f.Close()
+	ps, err := gitignore.DirPatterns(fs, nil)
+	return err == nil && len(ps) == 1 && ps[0].Match([]string{"probe"}, false) == gitignore.Exclude
+})
+
 func patternLines(content, domain string) []textPattern {
 	var out []textPattern
 	var dom []string
 	if domain != "" {
 		dom = strings.Split(domain, "/")
+	}
+	if gogitSkipsBOM() {
+		content = strings.TrimPrefix(content, "\xef\xbb\xbf")
 	}
 	for _, ln := range strings.Split(content, "\n") {
 		ln = strings.TrimSuffix(ln, "\r")
@@ -521,7 +541,7 @@ func run(c *vf.Ctx) {
 			switch {
 			case ancKey != "":
 				key = ancKey // an ancestor directory already diverges: below it both sides just follow the parent
-			case d.gv.line == "1" && strings.HasPrefix(gsrc, "\xef\xbb\xbf"):
+			case !gogitSkipsBOM() && d.gv.line == "1" && strings.HasPrefix(gsrc, "\xef\xbb\xbf"):
 				key = "utf8-bom-in-ignore-file:first-pattern-not-recognised"
 			case bracketSpansSlash(d.gv.pattern) || bracketSpansSlash(gpat):
 				key = "bracket-expression-spanning-slash"
